@@ -93,7 +93,7 @@ func c19Body(c *ev.Ctx) {
 	if !quick {
 		dims = append(dims, [2]int{1, 3})
 	}
-	var cells, proofsOK, verifyOK, verifyRejected int64
+	var cells, proofsOK, verifyOK, verifyRejected, shortVariants int64
 	classes := map[string]bool{}
 	var cmu sync.Mutex
 	for _, dm := range dims {
@@ -335,6 +335,21 @@ func c19Body(c *ev.Ctx) {
 					add(mf, k, "emitted", "emitted")
 				}
 			}
+			// valid re-randomisations of the emitted proof in which each coordinate in turn has
+			// leading zero bytes ("many independently generated proofs", made deterministic)
+			vars, verr := proofVariants(e.ps, e.proof, 4000)
+			if verr != nil {
+				c.HarnessError("proof variants: %v", verr)
+			}
+			for vi, v := range vars {
+				name := fmt.Sprintf("rerandomised%d(short %s)", vi, strings.Join(v.Short, ","))
+				proofs[name] = v.JSON
+				if !e.verifies(e.ps, v.JSON, e.hash) {
+					c.HarnessError("re-randomised proof does not verify in-process")
+				}
+				add(mode, "right", "emitted", name)
+				atomic.AddInt64(&shortVariants, 1)
+			}
 			for hk := range hashes {
 				for pk := range proofs {
 					if quick && strings.HasPrefix(pk, "tamper") && hk != "emitted" {
@@ -443,6 +458,7 @@ func c19Body(c *ev.Ctx) {
 	c.Set("distinct_nontrivial", int64(len(classes)))
 	c.Set("prove_successes_verified", proofsOK)
 	c.Set("verify_cells_valid", verifyOK)
+	c.Set("valid_proofs_with_a_short_coordinate_fed_to_verify", shortVariants)
 	c.Set("verify_cells_invalid", verifyRejected)
 	c.Set("exhaustive", len(c.CapsHit()) == 0)
 	c.Set("rule", "cells of the decision table on the real binary: prove: (--mode flag in {right, other, bogus, absent}) x (keys in {right, other mode's, missing, truncated}) x (params in {own, other mode's}) + {garbage, empty, perturbed} params with right mode/keys; verify: the same (mode x keys) product with the emitted hash/proof + (hash in {emitted, +1, +r, decimal, zz, absent}) x (proof in {emitted, 8 single-digit tamperings, {}, empty, garbage}); histories: convert-to-raw then prove/verify across both files, repeated gen>prove>verify, verify without proof, other system's proof, export-solidity; setup/gen-test-params/r1cs with unknown or missing mode. Oracle: exit 0 <=> an independently decoded proof verifies in-process for the hash mod r under the given keys; prove's stdout is exactly one JSON value + newline")
